@@ -551,6 +551,8 @@ def step (st : St) (line : String) : St × Verdict :=
   | "node" :: id :: rest =>
     match id.toNat?, (getKV rest "input").bind parseChain?, (getKV rest "faulty").bind (·.toNat?), (getKV rest "power").bind (·.toNat?) with
     | some id, some inp, some f, some pw =>
+      -- `beginInstance`: the host's chain is cut to the protocol maximum (`chain.Prefix(ChainMaxLen - 1)`, 128 tipsets)
+      let inp := inp.take 128
       let inst := ((getKV rest "inst").bind (·.toNat?)).getD 0
       -- messages queued for this instance before it began (kind `Q`) are delivered votes from now on, unless the
       -- late-binding checks (supplemental data, base) will drop them at the drain
